@@ -33,6 +33,7 @@ type c07iPlan struct {
 	WithNth    string `json:"with_nth"` // what is displayed and searched; what is printed stays the record
 	Ansi       int    `json:"ansi"`     // every Ansi-th record carries SGR sequences and --ansi is given
 	NoColor    bool   `json:"no_color"` // --no-color: --ansi still means the sequences are not part of the record
+	Prints     bool   `json:"prints"`   // alt-r: print(queued), alt-y: print()
 	End        string `json:"end"`      // enter | esc | alt-e (expect key) | f2 (expect key) | alt-p (print-query) | alt-o (accept-or-print-query) | alt-n (accept-non-empty)
 }
 
@@ -114,20 +115,49 @@ func acceptNthModel(line, expr, delim string) string {
 		}
 		return strings.Join(fields[a-1:b], "")
 	}
+	// a field index expression: N | -N | A..B | A.. | ..B | .. ; several, separated by commas, are concatenated.
+	// Negative numbers count from the last field; a range whose ends cross designates nothing.
 	var res string
-	switch expr {
-	case "1":
-		res = pick(1, 1)
-	case "2":
-		res = pick(2, 2)
-	case "-1":
-		res = pick(n, n)
-	case "1..2":
-		res = pick(1, 2)
-	case "2..":
-		res = pick(2, n)
-	default:
-		return line
+	for _, part := range strings.Split(expr, ",") {
+		a, b := 1, n
+		num := func(s string, dflt int) (int, bool) {
+			if s == "" {
+				return dflt, true
+			}
+			v, err := strconv.Atoi(s)
+			if err != nil || v == 0 {
+				return 0, false
+			}
+			if v < 0 {
+				v = n + v + 1
+				if v < 1 {
+					// before the first field: as a single index nothing, as a range end the line's edge
+					v = 0
+				}
+			}
+			return v, true
+		}
+		if k := strings.Index(part, ".."); k >= 0 {
+			var ok1, ok2 bool
+			a, ok1 = num(part[:k], 1)
+			b, ok2 = num(part[k+2:], n)
+			if !ok1 || !ok2 {
+				return line
+			}
+			if b == 0 {
+				continue // ends before the first field
+			}
+		} else {
+			v, ok := num(part, 0)
+			if !ok {
+				return line
+			}
+			if v == 0 {
+				continue
+			}
+			a, b = v, v
+		}
+		res += pick(a, b)
 	}
 	if delim == "" {
 		return strings.TrimRight(res, " ")
@@ -146,7 +176,7 @@ func genC07iPlan(r *zsim.Rng) *c07iPlan {
 	p.Expect = r.Chance(1, 3)
 	p.Print0 = r.Chance(1, 5)
 	if r.Chance(1, 2) {
-		p.AcceptNth = []string{"1", "2", "-1", "1..2", "2.."}[r.Intn(5)]
+		p.AcceptNth = []string{"1", "2", "-1", "1..2", "2..", "-2", "2..-2", "..-2", "-2..", "2..3", "3..", "..", "1,-1", "2..3,1", "3..2", "-3..-2"}[r.Intn(16)]
 	}
 	p.Select1 = r.Chance(1, 6)
 	p.Exit0 = r.Chance(1, 6)
@@ -182,8 +212,12 @@ func genC07iPlan(r *zsim.Rng) *c07iPlan {
 	}
 	p.End = []string{"enter", "enter", "esc", "alt-e", "f2", "alt-p", "alt-o", "alt-n", "ctrl-c"}[r.Intn(9)]
 	p.Events = append(p.Events, sysEvent{Kind: "settle"})
+	keys := []string{"alt-u", "alt-u", "alt-d", "alt-t", "alt-t", "alt-t", "alt-z"}
+	if p.Prints = r.Chance(1, 3); p.Prints {
+		keys = append(keys, "alt-r", "alt-r", "alt-y")
+	}
 	for i := r.Intn(8); i > 0; i-- {
-		p.Events = append(p.Events, sysEvent{Kind: "keys", Keys: []string{"alt-u", "alt-u", "alt-d", "alt-t", "alt-t", "alt-t", "alt-z"}[r.Intn(7)]}, sysEvent{Kind: "settle"})
+		p.Events = append(p.Events, sysEvent{Kind: "keys", Keys: keys[r.Intn(len(keys))]}, sysEvent{Kind: "settle"})
 	}
 	p.Events = append(p.Events, sysEvent{Kind: "keys", Keys: p.End})
 	return p
@@ -201,6 +235,9 @@ func runC07i(c *runCtx) {
 	add := func(a ...string) { sp.Args = append(sp.Args, a...) }
 	add("--bind", "alt-u:up", "--bind", "alt-d:down", "--bind", "alt-t:toggle-in", "--bind", "alt-p:print-query", "--bind", "alt-z:change-query(zqzq)",
 		"--bind", "alt-o:accept-or-print-query", "--bind", "alt-n:accept-non-empty")
+	if plan.Prints {
+		add("--bind", "alt-r:print(queued)", "--bind", "alt-y:print()")
+	}
 	if plan.PrintQuery {
 		add("--print-query")
 	}
@@ -268,6 +305,7 @@ func runC07i(c *runCtx) {
 		m.multi = int(maxMulti)
 	}
 	applied := 0
+	var printQueue []string // print(...): strings to print on normal exit, after the query / key lines
 	curQuery := plan.Query
 	r.onSettle = func(r *sysRun, busy bool, final bool) {
 		if st := r.state(); st != nil && !busy && !st.Reading && r.settleN > 0 {
@@ -301,6 +339,14 @@ func runC07i(c *runCtx) {
 					m.apply("down")
 				case "alt-t":
 					m.apply("toggle-in")
+				case "alt-r":
+					if plan.Prints {
+						printQueue = append(printQueue, "queued")
+					}
+				case "alt-y":
+					if plan.Prints {
+						printQueue = append(printQueue, "")
+					}
 				case "alt-z":
 					// a query nothing matches (selections stay): what is listed changes, what is selected does not
 					curQuery = "zqzq"
@@ -377,6 +423,7 @@ func runC07i(c *runCtx) {
 			if plan.Expect {
 				want = append(want, key)
 			}
+			want = append(want, printQueue...)
 		}
 		end := plan.End
 		if end == "alt-e" && !plan.Expect || end == "f2" && !plan.Expect {
@@ -462,7 +509,9 @@ func genC18sPlan(r *zsim.Rng) *c18sPlan {
 		p.Init = append(p.Init, "h"+strconv.Itoa(r.Intn(20)))
 	}
 	for s := r.Range(1, 5); s > 0; s-- {
-		ses := c18Session{End: []string{"enter", "enter", "enter", "esc", "ctrl-c", "alt-p"}[r.Intn(6)]}
+		// alt-b: become(BE {}) - replaces fzf with the command if there is a current line (the query counts as
+		// submitted), does nothing otherwise (the harness then aborts the session)
+		ses := c18Session{End: []string{"enter", "enter", "enter", "esc", "ctrl-c", "alt-p", "alt-b"}[r.Intn(7)]}
 		for k := r.Intn(10); k > 0; k-- {
 			// alt-s: search(hx) - what is searched is not what was typed; the history records the query line
 			ses.Steps = append(ses.Steps, []string{"a", "b", "z", "q", "ctrl-p", "ctrl-p", "ctrl-n", "bspace", "alt-s"}[r.Intn(9)])
@@ -503,12 +552,15 @@ func runC18s(c *runCtx) {
 	for si, ses := range plan.Sessions {
 		sp := plan.sysPlan
 		sp.Args = append(append([]string{}, plan.sysPlan.Args...), "--history", path, "--history-size", strconv.Itoa(plan.Max),
-			"--bind", "alt-s:search(hx)", "--bind", "alt-p:print-query")
+			"--bind", "alt-s:search(hx)", "--bind", "alt-p:print-query", "--bind", "alt-b:become(BE {})")
 		sp.Events = []sysEvent{{Kind: "settle"}}
 		for _, k := range ses.Steps {
 			sp.Events = append(sp.Events, sysEvent{Kind: "keys", Keys: k}, sysEvent{Kind: "settle"})
 		}
 		sp.Events = append(sp.Events, sysEvent{Kind: "keys", Keys: ses.End})
+		if ses.End == "alt-b" {
+			sp.Events = append(sp.Events, sysEvent{Kind: "settle"})
+		}
 		r := newSysRun(c, &sp)
 		// model of the query line under history navigation (same as H-hist's)
 		pos := len(E)
@@ -565,12 +617,17 @@ func runC18s(c *runCtx) {
 		}
 		commonExitChecks(r)
 		r.cleanup()
-		if !r.done || len(c.viol) > 0 {
+		became := r.became != ""
+		if !(r.done || became) || len(c.viol) > 0 {
 			return
 		}
 		_ = st
-		// a query is recorded iff the session ended with exit status <= 1 and the query is not empty
-		if r.code <= ExitNoMatch && input != "" && (ses.End == "enter" || ses.End == "alt-p") {
+		if became {
+			c.count("probe.become_submits", 1)
+		}
+		// a query is recorded iff the session ended with exit status <= 1 (or by replacing itself with the
+		// command of become) and the query is not empty
+		if input != "" && (became || r.code <= ExitNoMatch && (ses.End == "enter" || ses.End == "alt-p")) {
 			E = append(append([]string{}, E...), input)
 			if len(E) > plan.Max {
 				E = E[len(E)-plan.Max:]
